@@ -127,7 +127,20 @@ COMPAT_FUNCS = [VS + 'Number._is_compatible', VS + 'List._is_compatible', VS + '
 EXTEND_FUNCS = [VS + 'Number._extend', VS + 'Tuple._extend', KS + 'ListKey.extend']
 
 
-def _side(expr):
+def _bound_aliases(fn):
+  """Locals that are plain copies of the receiver's own bound
+  (`min_value = self._min_value`), whatever they are called."""
+  out = {}
+  for st in ast.walk(fn):
+    if isinstance(st, ast.Assign) and isinstance(st.value, ast.Attribute):
+      d = (A.dotted(st.value) or '').split('.')
+      if len(d) == 2 and d[0] == 'self' and d[1].lstrip('_') in BOUND_ATTRS:
+        for nm in A.assigned_names(st.targets[0]):
+          out[nm] = d[1].lstrip('_')
+  return out
+
+
+def _side(expr, aliases=None):
   """('self'|'other', attr) for self._x / self.x / other.x / base.x; also
   len(self)/len(other) as (side, 'len')."""
   if isinstance(expr, ast.Attribute):
@@ -135,8 +148,8 @@ def _side(expr):
     p = d.split('.')
     if len(p) == 2 and p[1].lstrip('_') in BOUND_ATTRS:
       return ('self' if p[0] == 'self' else 'other'), p[1].lstrip('_')
-  if isinstance(expr, ast.Name) and expr.id in BOUND_ATTRS:
-    return 'self', expr.id        # local copy of the receiver's own bound
+  if isinstance(expr, ast.Name) and aliases and expr.id in aliases:
+    return 'self', aliases[expr.id]        # local copy of the receiver's own bound
   if isinstance(expr, ast.Call) and A.call_name(expr) == 'len' and expr.args:
     d = A.dotted(expr.args[0]) or ''
     if d in ('self', 'other', 'base'):
@@ -154,7 +167,9 @@ def rule_b(ctx):
       g = C.cfg_of(f.node)
       seen_max_attrs = set()
       none_reject = set()
-      for k in g.nodes:
+      aliases = _bound_aliases(f.node)
+      ordinal = {}
+      for k in sorted(g.nodes, key=lambda n: (n.lineno or 0, n.id)):
         if k.kind != 'test':
           continue
         # rejecting outcome of this test
@@ -179,7 +194,7 @@ def rule_b(ctx):
         for left, op, right in A.compare_parts(t):
           if not isinstance(op, (ast.Lt, ast.LtE, ast.Gt, ast.GtE)):
             continue
-          ls, rs = _side(left), _side(right)
+          ls, rs = _side(left, aliases), _side(right, aliases)
           if not ls or not rs or ls[0] == rs[0]:
             continue
           if rejects != 'true':
@@ -199,7 +214,8 @@ def rule_b(ctx):
           else:
             want = {'min': ('Lt',), 'max': ('Gt',)}[pol]      # self.min < base.min rejects
           ok = opn in want
-          ctx.ob('C04.b', f'{q}#{attr}@{k.lineno}:{A.unparse(left, 30)}', ok,
+          ordinal[attr] = ordinal.get(attr, 0) + 1
+          ctx.ob('C04.b', f'{q}#{attr}[{ordinal[attr]}]', ok,
                  f'bound comparison on `{attr}` rejects exactly the widening direction '
                  f'({"other wider than self" if kind == "compat" else "self wider than base"})',
                  f'{f.module.relpath}:{k.lineno}',
@@ -343,7 +359,26 @@ def _universal_facts(f):
   return out
 
 
+def _existential_facts(f):
+  """[(fact_text, iterable_text, unconditional)]: the function returns True as
+  soon as one element of the iterable satisfies the fact — from
+  `for x in it: if c: return True` and `return any(c for x in it)`."""
+  out = []
+  for n in ast.walk(f.node):
+    if isinstance(n, ast.For):
+      for st in n.body:
+        if isinstance(st, ast.If) and len(st.body) == 1 and isinstance(st.body[0], ast.Return) \
+            and A.unparse(st.body[0].value) == 'True' and not st.orelse:
+          out.append((A.unparse(st.test), A.unparse(n.iter), True))
+    elif isinstance(n, ast.Return) and isinstance(n.value, ast.Call) and A.call_name(n.value) == 'any' \
+        and n.value.args and isinstance(n.value.args[0], ast.GeneratorExp):
+      ge = n.value.args[0]
+      out.append((A.unparse(ge.elt), A.unparse(ge.generators[0].iter), all(not c.ifs for c in ge.generators)))
+  return out
+
+
 def rule_e(ctx):
+  import re
   idx = ctx.index
   # Enum._extend: each value is applied to the base
   f = idx.func(VS + 'Enum._extend')
@@ -361,8 +396,8 @@ def rule_e(ctx):
          f.loc, 'values are no longer applied to the base: an extended Enum may accept values the base rejects')
   # Enum.is_compatible / _is_compatible: other's values ⊆ self's values
   f = idx.func(VS + 'Enum._is_compatible')
-  t = A.unparse(f.node, 1000)
-  ok = 'for v in other.values' in t and 'v not in self.values' in t and 'return False' in t
+  ok = any(re.fullmatch(r'\w+ in self\._?values', fact) and re.fullmatch(r'other\._?values', it) and un
+           for fact, it, un in _universal_facts(f))
   ctx.ob('C04.e', f.fq, ok, 'Enum compatibility requires other.values ⊆ self.values', f.loc,
          'subset test changed')
   # Schema.is_compatible: equal key sets and compatible shared fields, unconditional
@@ -385,8 +420,11 @@ def rule_e(ctx):
            'the test is tolerated under an extra condition / filter')
   # Union: compatible iff some candidate is / all of other's candidates are
   f = idx.func(VS + 'Union.is_compatible')
-  t = A.unparse(f.node, 2000)
-  ok = 'for oc in other.candidates' in t and 'not self.is_compatible(oc)' in t and 'c.is_compatible(other)' in t
+  uni = any(re.fullmatch(r'self\.is_compatible\(\w+\)', fact) and re.fullmatch(r'other\._?candidates', it) and un
+            for fact, it, un in _universal_facts(f))
+  exi = any(re.fullmatch(r'\w+\.is_compatible\(other\)', fact) and re.fullmatch(r'self\._?candidates', it) and un
+            for fact, it, un in _existential_facts(f))
+  ok = uni and exi
   ctx.ob('C04.e', f.fq, ok, 'Union compatibility: all of other\'s candidates / some own candidate', f.loc,
          'Union compatibility changed shape')
   # ValueSpecBase.is_compatible: same class, noneability
@@ -487,8 +525,13 @@ def rule_h(ctx):
     f = idx.func(q)
     g = C.cfg_of(f.node)
     for b_ in ('min_value', 'max_value'):
-      pat = _re.compile(r'^(self\.)?_?' + b_ + r' is None$')
-      tests = [t for t in g.nodes if t.kind == 'test' and pat.match(A.unparse(t.ast))]
+      own = {f'self.{b_}', f'self._{b_}'}
+      aliases = {nm for st in ast.walk(f.node) if isinstance(st, ast.Assign) and A.unparse(st.value) in own
+                 for nm in A.assigned_names(st.targets[0])}
+      def is_own_none(e):
+        return isinstance(e, ast.Compare) and len(e.ops) == 1 and isinstance(e.ops[0], ast.Is) \
+            and A.unparse(e.comparators[0]) == 'None' and (A.unparse(e.left) in own or A.unparse(e.left) in aliases)
+      tests = [t for t in g.nodes if t.kind == 'test' and is_own_none(t.ast)]
       if not tests:
         continue
       inherit = {k.id for k in g.nodes if k.kind == 'stmt' and isinstance(k.ast, ast.Assign)
